@@ -324,7 +324,9 @@ func RegexpQuery(text string, content, file bool) (Q, error) {
 
 	r = OptimizeRegexp(r, regexpFlags)
 
-	if r.Op == syntax.OpLiteral {
+	// A case-folded literal such as (?i)foo must stay a regexp: Substring has no
+	// way to say "ignore case" that survives case:auto.
+	if r.Op == syntax.OpLiteral && r.Flags&syntax.FoldCase == 0 {
 		expr = &Substring{
 			Pattern:  string(r.Rune),
 			FileName: file,
